@@ -109,7 +109,13 @@ func (r *Rig) call(in *In, out *Out) {
 			out.Attr = attrOf(rep.Resok.Obj_attributes)
 		}
 	case "setattr":
-		rep := s.NFSPROC3_SETATTR(nfstypes.SETATTR3args{Object: fh3(in.Obj), New_attributes: sattr(in)})
+		args := nfstypes.SETATTR3args{Object: fh3(in.Obj), New_attributes: sattr(in)}
+		if in.How == 1 {
+			args.Guard = nfstypes.Sattrguard3{Check: true, Obj_ctime: nfstypes.Nfstime3{Seconds: 77, Nseconds: 5}}
+		} else if in.How == 2 {
+			args.Guard = nfstypes.Sattrguard3{Check: true}
+		}
+		rep := s.NFSPROC3_SETATTR(args)
 		out.Status = uint32(rep.Status)
 		if rep.Status == 0 {
 			out.Attr = postAttr(rep.Resok.Obj_wcc.After)
